@@ -281,7 +281,8 @@ class ArffLineReader(Filter[str, Sequence[str]]):
 
             if item and item[0] in self._quotes:
                 possible_quotechar = item[0]
-                while item.rstrip()[-1] != possible_quotechar or item.rstrip()[-2] == "\\":
+                #a piece that is only the opening quote (the value starts with the delimiter) is not closed yet
+                while len(item.rstrip()) < 2 or item.rstrip()[-1] != possible_quotechar or item.rstrip()[-2] == "\\":
                     #put back what the split on the delimiter took out of the quoted value
                     item += self._fallback_delim + d_line.popleft()
                 item = item.strip()[1:-1]
